@@ -364,3 +364,31 @@ Proof.
     destruct (N.ltb_spec (hex_value (c :: ds)) two64); [|discriminate]. intro E. injection E as <-. assumption. }
   destruct r as [|x r']; [|destruct (first_prefix (x :: r') scan_spaces)]; try discriminate; intro E; eapply H; try exact E; reflexivity.
 Qed.
+
+(* ------------------------------------------------------------ the Child process *)
+
+(* what Child counts is the counter name of its whole standard input *)
+Lemma child_counts_counter_name symb child stdin name :
+  monitor_child symb child stdin = Counted name <->
+  ((2 <= count_newlines stdin)%nat /\ counter_name symb child stdin = Ok name).
+Proof.
+  unfold monitor_child. destruct (Nat.ltb_spec (count_newlines stdin) 2) as [Hlt|Hge].
+  - split; [discriminate|intros [H _]; lia].
+  - destruct (counter_name symb child stdin) as [n|]; split.
+    + intro H. injection H as ->. split; [exact Hge|reflexivity].
+    + intros [_ H]. injection H as ->. reflexivity.
+    + discriminate.
+    + intros [_ H]. discriminate.
+Qed.
+
+(* hence it depends on the report only through its projection (and on whether
+   it has two lines at all): in particular not on the length of any message *)
+Lemma child_noninterference symb child c1 c2 :
+  view c1 = view c2 -> (2 <= count_newlines c1)%nat -> (2 <= count_newlines c2)%nat ->
+  monitor_child symb child c1 = monitor_child symb child c2.
+Proof.
+  intros Hv H1 H2. unfold monitor_child.
+  destruct (Nat.ltb_spec (count_newlines c1) 2); [lia|].
+  destruct (Nat.ltb_spec (count_newlines c2) 2); [lia|].
+  rewrite (noninterference symb child c1 c2 Hv). reflexivity.
+Qed.
